@@ -107,6 +107,12 @@ def run(chk, replay=None):
             for _ in range(rng.randrange(1, 5)):
                 fp = rng.choice([None, None, None, "*", "a.o", "*b.o", "[ab].o"])
                 rules.append((gen_pattern(rng, minlit), fp, rng.random() < 0.3))
+            if k % 4 == 1:
+                # a family: wildcard descriptions and full names of sections they also match, sharing their leading bytes, in any
+                # order (a script that lists the general description before the specific one is answered by the general one)
+                base = rng.choice([".cfg", ".text", ".ab", ".d", ".tex."])
+                fam = [base + ".*", base + "*", base + ".s*", base + ".?pecial", base + ".special", base + ".s", base + ".sp", base, base + ".special.x"]
+                rules = [(rng.choice(fam), rng.choice([None, None, "*", "a.o"]), rng.random() < 0.3) for _ in range(rng.randrange(2, 6))]
             qs = []
             for p, fp, _k in rules:
                 qs.append((instantiate(rng, p), rng.choice(["a.o", "b.o", "xb.o"])))
